@@ -4,19 +4,19 @@ CLAIMED = {
   "category": "exploration",
   "text": "No-unwind (build with debug-assertions and overflow-checks), per-call heap meter and hang watchdog are evaluated as invariants of every call the simulated monitor makes in every world: well-formed and fault-perturbed TLS/DTLS traffic, a hostile channel (bit flips, byte drops and insertions, length lies in any field, truncation anywhere, garbage), a confused monitor that applies all 83 public parse functions plus Debug/Display formatting to every structure in flight at every delivery event, and TlsRecordsParser operation histories with all record-layer faults up to the 10 MiB bound. Relaxed oracle on purpose (any Ok/Err is fine). This samples corruptions of realistic traffic; it does not enumerate all byte strings and says so.",
   "design_ref": "DESIGN.md section 3 (C01)",
-  "note": "Trusted base: counting GlobalAlloc and catch_unwind harness; heap bound A*len+B with A derived from the real types at run time; allocation failure not injected; watchdog uses the real clock only to declare a hang (120 s).",
+  "note": "Trusted base: counting GlobalAlloc and catch_unwind harness; heap bound A*len + 1 MiB with A = 16 x the largest returned element type, derived from the real types at run time; allocation failure not injected; watchdog uses the real clock only to declare a hang (120 s).",
   "technique": "deterministic simulation: all worlds + hostile channel + confused monitor, with no-panic / heap-meter / watchdog invariants on every call",
  },
  "C06": {
   "category": "exploration",
-  "text": "'Appending arbitrary bytes changes nothing' is a relation between runs on b and b++x, and on a live stream x is whatever the network has already delivered behind the structure, which only the delivery schedule decides: an over-read is exactly a result that depends on the schedule. The check places each of the 16 self-delimiting structures in flight with seeded trailing data (including bytes that are valid structures themselves) and applies its parser at every delivery event (once Ok, the same value and consumption for every longer buffer; outcome class stable once the declared extent is buffered; remainder is the suffix by address; every slice reachable from the value inside the consumed region), re-parses every framed record of a stream on its exact extent / as buffered / with the whole rest behind it, checks per-message containment against the sender's byte layout, and audits slice provenance of TlsRecordsParser results (caller's record vs parser buffer through the guarded hook). Sampled structures and schedules: evidence, not proof.",
+  "text": "'Appending arbitrary bytes changes nothing' is a relation between runs on b and b++x, and on a live stream x is whatever the network has already delivered behind the structure, which only the delivery schedule decides: an over-read is exactly a result that depends on the schedule. The check places each of the 16 self-delimiting structures in flight with seeded trailing data (including bytes that are valid structures themselves) and applies its parser at every delivery event (once Ok, the same value and consumption for every longer buffer; outcome class stable once the declared extent is buffered; remainder is the suffix by address; every slice reachable from the value inside the consumed region), re-parses every framed record of a stream on its exact extent / as buffered / with the whole rest behind it, and checks per-message containment against the sender's byte layout. Sampled structures and schedules: evidence, not proof.",
   "design_ref": "DESIGN.md section 3 (C06)",
   "note": "Trusted base: the slice walker must enumerate every &[u8] of every returned type (a new field added to the crate without updating visit.rs would not be audited); empty slices are exempt (no bytes); values are compared between runs of the same parser, never with sent values.",
   "technique": "deterministic simulation: eager taps under seeded delivery schedules with in-flight trailing data, schedule-independence of parsed values and pointer-provenance audit",
  },
  "C07": {
   "category": "exploration",
-  "text": "Seeded search over operation histories {parse_record, parse_record_nocopy, reset} produced by a simulated record layer (arbitrary k-way splits, empty fragments, foreign-type interleaving, duplicates, oversize streams up to the 10 MiB bound, consumer resets) against one real TlsRecordsParser; every call is compared with an executable accumulate-then-parse reference model (Ok / Incomplete / rejection with the stated ErrorKind, messages, remainder, defrag_in_progress, buffer length and content while a defragmentation is in progress via the guarded hook, slice provenance), plus a history-level split-group oracle that is independent of the model's state tracking. The component is stateful and the property quantifies over call histories, which is what a simulator with a reference model decides; a clean batch is evidence from sampled histories, not a proof.",
+  "text": "Seeded search over operation histories {parse_record, parse_record_nocopy, reset} produced by a simulated record layer (arbitrary k-way splits, empty fragments, foreign-type interleaving, duplicates, oversize streams up to the 10 MiB bound, consumer resets) against one real TlsRecordsParser; every call is compared with an executable accumulate-then-parse reference model (Ok / Incomplete / rejection with the stated ErrorKind, messages, remainder, defrag_in_progress, buffer length and content while a defragmentation is in progress when the guarded hook shows them, fast-path results referring to the caller's record), plus a history-level split-group oracle that is independent of the model's state tracking. The component is stateful and the property quantifies over call histories, which is what a simulator with a reference model decides; a clean batch is evidence from sampled histories, not a proof.",
   "design_ref": "DESIGN.md section 3 (C07)",
   "note": "Trusted base: the reference model (about 60 lines) delegates single-payload parsing to the real parse_tls_record_with_header, so C07 is checked as refinement of accumulation, not of payload decoding; heartbeat accumulations > 65535 bytes are unconstrained; the hook accessor verif_defrag_buffer is assumed to return the live buffer.",
   "technique": "deterministic simulation: seeded operation histories with fault injection, call-by-call refinement against an executable reference model",
